@@ -117,6 +117,12 @@ def process_outputs(
     result: Set[str] = {TASK_OUTPUT_SUBMITTED, TASK_OUTPUT_STARTED}
 
     conf_outputs = list(rtconfig['skip']['outputs']) if rtconfig else []
+    emit_failed = TASK_OUTPUT_FAILED in conf_outputs or (
+        TASK_OUTPUT_SUCCEEDED not in conf_outputs
+        and TASK_OUTPUT_FAILED in set(
+            itask.state.outputs.iter_required_messages()
+        )
+    )
 
     # Send the rest of our outputs, unless they are succeeded or failed,
     # which we hold back, to prevent warnings about pre-requisites being
@@ -124,7 +130,7 @@ def process_outputs(
     for message in itask.state.outputs.iter_required_messages(
         disable=(
             TASK_OUTPUT_SUCCEEDED
-            if TASK_OUTPUT_FAILED in conf_outputs
+            if emit_failed
             else TASK_OUTPUT_FAILED
         )
     ):
@@ -143,7 +149,7 @@ def process_outputs(
         if trigger in conf_outputs
     )
 
-    if TASK_OUTPUT_FAILED in conf_outputs:
+    if emit_failed:
         result.add(TASK_OUTPUT_FAILED)
     else:
         result.add(TASK_OUTPUT_SUCCEEDED)
